@@ -11,7 +11,7 @@ structure DState where
 def showErr : Err → String
   | .emptyVector => "empty_vector" | .invalidTopK => "invalid_top_k"
   | .dimMismatch => "dim_mismatch" | .notFound => "not_found"
-  | .collExists => "coll_exists" | .collNotFound => "coll_not_found"
+  | .collExists => "coll_exists" | .collNotFound => "coll_not_found" | .unsupported => "unsupported"
 
 def showMetric : Metric → String
   | .cosine => "cosine" | .euclid => "euclid" | .dot => "dot"
@@ -42,6 +42,7 @@ def showOut (q : List Int) : SearchOut → String
   | .zeroQuery => "zero"
   | .ranked m rs cut k => s!"ranked m={showMetric m} A={normSq q} cut={cut} k={k} | {showCands rs}"
   | .viaIndex snap rs cut k => s!"index m=cosine A={normSq q} cut={cut} k={k} n={snap.length} | {showCands rs}"
+  | .indexDimMismatch snap => s!"index_dim_mismatch n={snap.length}"
 
 /-- `-` or `f=1;g=-2` -/
 def parseMeta (s : String) : Option (List (String × Int)) :=
@@ -89,10 +90,13 @@ def fresh (x : Coll) : String :=
   | none => "none"
   | some s => if s == snapOf x.items then s!"fresh {s.length}" else s!"stale {s.length}"
 
-def annAnswer (out : SearchOut) (q : List Int) (ids : List Nat) : String :=
+/-- node ids are alpha-renamed: the harness names the nodes the real index returned by their
+    keys (its key list is in the store's scan order, the model's in insertion order) -/
+def annAnswer (out : SearchOut) (q : List Int) (keys : List String) : String :=
   match out with
   | .viaIndex snap _ _ k =>
-    s!"ann A={normSq q} k={k} | {showCands (postProcessAnn snap (annWithTrueScores snap q ids) k)}"
+    let ids := keys.filterMap fun key => snap.findIdx? (fun e => e.1 == key)
+    s!"ann m=cosine A={normSq q} cut={k} k={k} n={snap.length} | {showCands (postProcessAnn snap (annWithTrueScores snap q ids) k)}"
   | other => "noindex " ++ showOut q other
 
 def vecStep (d : DState) (line : String) : DState × String :=
@@ -128,8 +132,8 @@ def vecStep (d : DState) (line : String) : DState × String :=
   | ["ccache", c] => (d, fresh (collOf d.st c))
   | ["search", q, k] => match parseInts q, k.toNat? with
       | some q, some k => (d, showOut q (searchDefault d.st q k)) | _, _ => bad
-  | ["search_ann", q, k, ids] => match parseInts q, k.toNat?, parseNats ids with
-      | some q, some k, some ids => (d, annAnswer (searchDefault d.st q k) q ids) | _, _, _ => bad
+  | ["search_ann", q, k, ids] => match parseInts q, k.toNat? with
+      | some q, some k => (d, annAnswer (searchDefault d.st q k) q (parseKeys ids)) | _, _ => bad
   | ["searchm", m, q, k] => match parseMetric m, parseInts q, k.toNat? with
       | some m, some q, some k => (d, showOut q (searchMetric d.st m q k)) | _, _, _ => bad
   | ["searchf", q, k, strat, os, f] =>
@@ -138,8 +142,8 @@ def vecStep (d : DState) (line : String) : DState × String :=
       | _, _, _, _, _ => bad
   | ["csearch", c, q, k] => match parseInts q, k.toNat? with
       | some q, some k => (d, showOut q (searchColl d.st c q k)) | _, _ => bad
-  | ["csearch_ann", c, q, k, ids] => match parseInts q, k.toNat?, parseNats ids with
-      | some q, some k, some ids => (d, annAnswer (searchColl d.st c q k) q ids) | _, _, _ => bad
+  | ["csearch_ann", c, q, k, ids] => match parseInts q, k.toNat? with
+      | some q, some k => (d, annAnswer (searchColl d.st c q k) q (parseKeys ids)) | _, _ => bad
   | ["csearchf", c, q, k, strat, os, f] =>
       match parseInts q, k.toNat?, parseStrategy strat, os.toNat?, parseFilter f with
       | some q, some k, some s, some os, some f => (d, showOut q (searchCollFiltered d.st c q k f s os))
